@@ -49,6 +49,8 @@ def _sq_units():
                 first = False
             units.append(dict(src="seq.cpp", defs=defs))
     units.append(dict(src="seq.cpp", defs=["SQ_FAMILY=0", "SQ_T=FT", "SQ_THROWING"]))
+    units.append(dict(src="seq.cpp", defs=["SQ_FAMILY=0", "SQ_T=int", "SQ_FLAG_BLOCK=uint8_t"]))
+    units.append(dict(src="seq.cpp", defs=["SQ_FAMILY=0", "SQ_T=double", "SQ_FLAG_BLOCK=uint16_t"]))
     return units
 
 
